@@ -26,7 +26,7 @@ from hsim.worlds.client import ClientArrival, ClientWorld
 PROPERTY = "C19"
 CHUNK = {"quick": 40, "thorough": 100}
 WINDOW = 1000    # see ASSUMPTIONS
-PROBES = ["reopened_with_reliable_sends_pending", "duplicate_beyond_window_unjudged", "window_filled", "retransmission_on_circuit_with_full_window", "retransmission_beyond_window_not_sent",
+PROBES = ["banned_message_refused", "reopened_with_reliable_sends_pending", "duplicate_beyond_window_unjudged", "window_filled", "retransmission_on_circuit_with_full_window", "retransmission_beyond_window_not_sent",
           "reliable_duplicate_delivered", "unreliable_duplicate_delivered", "ack_appended_completes",
           "ack_packetack_completes", "ack_before_send_ignored", "bogus_ack_ignored", "budget_exhausted",
           "resend_emitted", "ack_after_resend", "ping_reliable_duplicate", "retransmission_with_resent_flag",
@@ -96,7 +96,11 @@ def gen_plan(rng: random.Random, tier: str) -> dict:
                   # what a ping says about the sender's oldest unacknowledged packet: nothing, itself, or beyond
                   "oldest": rng.choice([0, 0, "self", "ahead"]),
                   "reliable": rng.random() < 0.6, "zerocoded": rng.random() < 0.3, "fate": fate}
-            if rng.random() < 0.35:
+            if rng.random() < 0.06:
+                # a message that may only come over the event queue arrives over UDP: it is not handed to anybody, but
+                # it is a received packet like any other (acknowledged if reliable, its appended acks count)
+                st["name"] = "banned"
+            if rng.random() < (0.6 if st["name"] == "banned" else 0.35):
                 st["acks"] = rng.randint(1, 3)
                 st["reack"] = rng.random() < 0.2
             if rng.random() < 0.08:
@@ -134,7 +138,7 @@ def simplify_step(step):
             s = dict(step)
             s.pop(k)
             yield s
-    if step.get("name") == "ping":
+    if step.get("name") in ("ping", "banned"):
         yield {**step, "name": "chat"}
 
 
@@ -255,7 +259,10 @@ def run_plan(plan: dict) -> RunResult:
             if p is None or a.src != world.sim_addr:
                 return
             if a.escaped is not None:
-                return violate("C19/arrival/exception-escaped", exc=repr(a.escaped)[:200])
+                banned_ = next((s_ for s_ in sent_by_sim if s_["pid"] == p.pid), {}).get("name") == "banned"
+                if not (banned_ and isinstance(a.escaped, PermissionError)):
+                    return violate("C19/arrival/exception-escaped", exc=repr(a.escaped)[:200])
+                res.probe("banned_message_refused")
             # (1) always ack
             if p.flags & L.RELIABLE:
                 acked = False
@@ -351,6 +358,11 @@ def run_plan(plan: dict) -> RunResult:
                 if oldest:
                     res.probe("ping_names_an_oldest_unacked_id")
                 body = b"\x01" + struct.pack("<B", tag & 0xFF) + struct.pack("<I", oldest)
+            elif st["name"] == "banned":
+                res.fault("udp_banned_message_received")
+                body = G.templates().get_template_by_name("EnableSimulator").freq_num_bytes + struct.pack(
+                    "<Q", 0x1234) + bytes([10, 9, 8, 7]) + struct.pack(">H", 13999)
+                tag = None
             else:
                 body = G.chat_from_simulator_body("hi", from_name=f"#{tag}#", chat_type=1)
             acks = sim.pick_acks(st.get("acks", 0), reack=st.get("reack", False)) if st.get("acks") else []
